@@ -912,6 +912,8 @@ func c18Run(ctx *Ctx, t *tape.Tape) *report.Violation {
 				st.Add("preempt_in_encode", 1)
 			case strings.HasPrefix(n, "render/"):
 				st.Add("preempt_in_render", 1)
+			case strings.HasPrefix(n, "raster/"):
+				st.Add("preempt_in_raster_and_raster_vec", 1)
 			case strings.HasPrefix(n, "generate/") || strings.HasPrefix(n, "mdicons/"):
 				st.Add("preempt_in_generate_mdicons", 1)
 			default:
